@@ -1117,7 +1117,7 @@ package pfcp
 //@   modifies *
 //@   reveal linked nodesWF registered
 //@   flag perreturn
-//@   serves C01 C04 C05 C08 C07
+//@   serves C01 C04 C05 C08 C07 C12
 //@   loop range(req.CreateFAR):
 //@     modifies sess.FARIDs[_], DP, CREATED
 //@     invariant [ok]   nodeInv(s.lnode) && sessOK(sess)
